@@ -4,9 +4,12 @@ Literal values on their way from PRQL source to SQL text (C08).
 * PRQL side: the value of a literal slice is what the lexer model (`Model/Lex`) computes for it
   (`litOfSlice`, `stringOfSlice`, `tokenOfSlice`); nothing is re-modelled here.
 * SQL side, emitter (mirror kernels):
-  - `sqlEscape` / `sqlQuote` mirror what actually prints a `Value::SingleQuotedString` (and a quoted `Ident`):
-    sqlparser-0.60 `ast/value.rs`, `impl Display for EscapeQuotedString`.  This is NOT plain quote doubling: a quote that
-    follows a backslash, and both quotes of an adjacent pair, are printed as they are ("may already be escaped").
+  - `sqlEscape` mirrors what prints a `Value::SingleQuotedString` (and a quoted `Ident`): sqlparser-0.60 `ast/value.rs`,
+    `impl Display for EscapeQuotedString`.  This is NOT plain quote doubling: a quote that follows a backslash, and both quotes
+    of an adjacent pair, are printed as they are ("may already be escaped").
+  - `sqlQuote` / `sqlQuoteIdent` mirror prqlc: the quotes of the value are doubled FIRST (gen_expr.rs `translate_literal`,
+    `translate_ident_part`, commits 938f352 / 3b64e89) and the doubled value goes through that printer; `Props.C08.sql_quote_eq_doubling`
+    proves the composition is plain doubling.  `sqlQuoteRaw` / `sqlQuoteIdentRaw` = the printer alone on the raw value.
   - `sqlQuoteStd` = plain doubling, the emitter the property needs (reference).
   - `printInt` mirrors `format!("{i}")` of an `i64` (gen_expr.rs `translate_literal`).
 * SQL side, readers (reference semantics): `sqlLexString` = standard SQL (quote doubling only; SQLite, Postgres, DuckDB, MSSQL,
@@ -63,17 +66,25 @@ def sqlEscape (q : Char) : Char → Src → Src
       else c :: c :: sqlEscape q c (d :: ds)                       -- doubled
     else c :: sqlEscape q c (d :: ds)
 
-/-- what prqlc prints for a string value (`Value::SingleQuotedString(s)` with the raw value) -/
-def sqlQuote (s : Src) : Src := '\'' :: (sqlEscape '\'' (Char.ofNat 0) s ++ ['\''])
+/-- sqlparser's printer applied to an UN-doubled value (`Value::SingleQuotedString(raw)`): what prqlc printed before commit
+938f352; kept only to state why the doubling is needed (`Props.C08.printer_alone_*`) -/
+def sqlQuoteRaw (s : Src) : Src := '\'' :: (sqlEscape '\'' (Char.ofNat 0) s ++ ['\''])
 
-/-- what a quoted identifier prints as (`Ident::with_quote(q, s)`) -/
-def sqlQuoteIdent (q : Char) (s : Src) : Src := q :: (sqlEscape q (Char.ofNat 0) s ++ [q])
+/-- what prqlc prints for a string value (gen_expr.rs `translate_literal`): every quote of the value is doubled
+(`s.replace('\'', "''")`) and the result goes through sqlparser's printer -/
+def sqlQuote (s : Src) : Src := '\'' :: (sqlEscape '\'' (Char.ofNat 0) (Quote.esc '\'' s) ++ ['\''])
+
+/-- sqlparser's printer applied to an un-doubled identifier (`Ident::with_quote(q, raw)`), the behaviour before commit 3b64e89 -/
+def sqlQuoteIdentRaw (q : Char) (s : Src) : Src := q :: (sqlEscape q (Char.ofNat 0) s ++ [q])
+
+/-- the `Ident` value `translate_ident_part` builds for a quoted name: the quote character doubled -/
+def identValue (q : Char) (s : Src) : Src := Quote.esc q s
+
+/-- what a quoted identifier prints as: `Ident::with_quote(q, identValue q s)` through sqlparser's printer -/
+def sqlQuoteIdent (q : Char) (s : Src) : Src := q :: (sqlEscape q (Char.ofNat 0) (identValue q s) ++ [q])
 
 /-- plain quote doubling: the reference emitter -/
 def sqlQuoteStd (s : Src) : Src := Quote.quote '\'' s
-
-/-- the emitter after the repair "double the quotes before handing the value to sqlparser" -/
-def sqlQuotePatched (s : Src) : Src := '\'' :: (sqlEscape '\'' (Char.ofNat 0) (Quote.esc '\'' s) ++ ['\''])
 
 def printNat (n : Nat) : Src := Nat.toDigits 10 n
 
